@@ -29,7 +29,9 @@ def gen_plan(rng, tier: str, idx: int) -> dict:
     N = 100000 if tier == "quick" else 400000
     if idx % 2 == 0:
         d = rng.randint(2, 6)
-        pen = rng.choice(["identity", "ridge_plus", "diff1", "diff2" if d >= 3 else "diff1"])
+        # "partial": some coefficients unpenalised; "lowrank": A'A of a random (d-1) x d matrix -
+        # rank-deficient penalties whose null space is not spanned by the constant vector
+        pen = rng.choice(["identity", "ridge_plus", "diff1", "diff2" if d >= 3 else "diff1", "partial", "lowrank"])
         return {"sub": "tau2", "n": rng.randint(5, 14), "d": d, "pen": pen, "a": rng.choice([0.5, 1.0, 2.0, 3.5]), "b": rng.choice([0.001, 0.05, 0.5, 1.0, 2.5]),
                 "beta": [round(rng.uniform(-2, 2), 3) for _ in range(d)], "tau2_now": rng.choice([0.1, 1.0, 7.0, 10000.0]),
                 "data_seed": rng.randrange(10**6), "seed": rng.randrange(2**31), "N": N, "second_smooth": rng.random() < 0.4,
@@ -66,9 +68,15 @@ def shrink_candidates(plan):
         yield p
 
 
-def penalty(kind, d):
+def penalty(kind, d, seed=0):
     if kind == "identity":
         return np.eye(d)
+    if kind == "partial":
+        k0 = max(1, d // 3)
+        return np.diag([0.0] * k0 + [1.0] * (d - k0))
+    if kind == "lowrank":
+        A = np.random.RandomState(seed).normal(size=(d - 1, d)).round(2)
+        return A.T @ A
     if kind == "ridge_plus":
         D = np.diff(np.eye(d), axis=0)
         return D.T @ D + 0.5 * np.eye(d)
@@ -100,7 +108,7 @@ def run_tau2(plan, V, log, counters):
     n, d = plan["n"], plan["d"]
     X = rs.normal(size=(n, d)).astype(np.float32)
     y = rs.normal(size=n).astype(np.float32)
-    K = penalty(plan["pen"], d)
+    K = penalty(plan["pen"], d, plan["data_seed"])
     b = DistRegBuilder().add_response(jnp.asarray(y), tfd.Normal).add_predictor("loc", tfb.Identity).add_predictor("scale", tfb.Exp)
     b.add_np_smooth(jnp.asarray(X), jnp.asarray(K, jnp.float32), a=plan["a"], b=plan["b"], predictor="loc", name="f")
     b.add_p_smooth(jnp.ones((n, 1), jnp.float32), m=0.0, s=10.0, predictor="scale", name="s0")
